@@ -680,6 +680,7 @@ type sxGen struct {
 	rng       *rand.Rand
 	stateless bool
 	es        bool // the handler has the fault-injecting EventStore
+	flags     string // what the event store currently fails
 	timeout   int
 	now       int
 	sess      []*sxSess
@@ -777,6 +778,7 @@ func (g *sxGen) faultOp() (string, []string) {
 			flags = "-"
 		}
 	}
+	g.flags = flags
 	return "fault " + flags, sxFaultTags(flags)
 }
 
@@ -828,8 +830,15 @@ func (g *sxGen) next() (op string, tags []string) {
 			return fmt.Sprintf("post - %s init", sxUsers[g.rng.Intn(4)]), []string{"post-init", "id-noid"}
 		}
 	}
-	if g.es && g.rng.Intn(100) < 9 {
-		return g.faultOp()
+	if g.es {
+		// while Open fails no session can be created or called: do not stay there for long
+		p := 9
+		if strings.ContainsAny(g.flags, "oO") {
+			p = 25
+		}
+		if g.rng.Intn(100) < p {
+			return g.faultOp()
+		}
 	}
 	if !g.stateless && g.rng.Intn(100) < 4 {
 		kind := []string{"init", "init", "init", "ping", "badinit", "slow"}[g.rng.Intn(6)]
